@@ -51,3 +51,24 @@ fn c12_q_tags_declared_count() {
     core::mem::forget(r);
 }
 
+
+/// tileset chunk: declared compressed length, tile count and tile size over their full ranges; `vec![0; n]` is replaced by
+/// a checking stub (the inflater itself is the identity model, so a reservation inside the real unzip is not observed)
+#[kani::proof]
+#[kani::unwind(10)]
+#[kani::stub(alloc::fmt::format, crate::vklib::empty_format)]
+#[kani::stub(alloc::vec::from_elem, crate::vklib::checking_from_elem)]
+#[kani::stub(crate::reader::AseReader::unzip, crate::vklib::stub_unzip_identity)]
+fn c12_q_tileset_declared_sizes() {
+    let mut buf: [u8; 38] = kani::any();
+    buf[4] = 2;
+    buf[5] = 0;
+    buf[6] = 0;
+    buf[7] = 0;
+    buf[32] = 0;
+    buf[33] = 0;
+    input_len(38);
+    let r = crate::tileset::Tileset::<RawPixels>::parse_chunk(&buf, PixelFormat::Rgba);
+    kani::cover!(rd32(&buf, 34) == 0x4000_0000, "inflated compressed-length field");
+    core::mem::forget(r);
+}
